@@ -58,14 +58,14 @@ fn parse_mut_calls(log: &str) -> Vec<Call> {
     v
 }
 
-fn errnos_for(func: &str, all: bool) -> Vec<&'static str> {
+fn errnos_for(func: &str, all: bool, rot: usize) -> Vec<&'static str> {
     let v: Vec<&'static str> = match func {
-        "rename" => vec!["EIO", "EXDEV", "EPERM", "ENOSPC"],
-        "link" => vec!["EPERM", "EIO", "EXDEV", "ENOSPC"],
+        "rename" => vec!["EIO", "EXDEV", "EPERM", "ENOSPC", "EACCES"],
+        "link" => vec!["EPERM", "EIO", "EXDEV", "ENOSPC", "EMLINK"],
         "symlink" => vec!["EPERM", "EIO", "ENOSPC"],
         "unlink" => vec!["EIO", "EPERM"],
-        "open-w" => vec!["EACCES", "ENOSPC", "EIO", "EMFILE"],
-        "write" | "copy" => vec!["ENOSPC", "EIO"],
+        "open-w" => vec!["EACCES", "ENOSPC", "EIO", "EMFILE", "EPERM"],
+        "write" | "copy" => vec!["ENOSPC", "EIO", "EPERM"],
         "clone" => vec!["EOPNOTSUPP", "EIO", "ENOSPC"],
         "mkdir" => vec!["ENOSPC", "EIO", "EPERM"],
         "utimes" => vec!["EPERM", "EIO"],
@@ -76,7 +76,13 @@ fn errnos_for(func: &str, all: bool) -> Vec<&'static str> {
     if all {
         v
     } else {
-        v.into_iter().take(2).collect()
+        // two errnos per position, rotating through the list with the position and the scenario
+        let n = v.len();
+        let mut out = vec![v[rot % n]];
+        if n > 1 {
+            out.push(v[(rot + 1) % n]);
+        }
+        out
     }
 }
 
@@ -303,7 +309,7 @@ pub fn run_case(ctx: &Ctx, c: &C05Case, n: u64) -> Verdict {
         let k = i + 1;
         faults.push(Fault::KillBefore(k));
         faults.push(Fault::KillAfter(k));
-        for e in errnos_for(&call.func, all_errnos) {
+        for e in errnos_for(&call.func, all_errnos, i + n as usize) {
             faults.push(Fault::Fail(k, e.to_string()));
         }
         // the operation fails and the next mutating call (the roll-back, if any) fails too
@@ -364,7 +370,7 @@ pub fn check(tier: Tier) -> i32 {
     cleanup_process_scratch();
     ctx.finish(
         "fault_enumeration",
-        "proptest-generated scenario trees (hostile names, 3-8 files) x remove / link / link --soft / dedupe (with and without FICLONE emulation by the interposer) / move (same file system, EXDEV copy fallback, separate mount). For each scenario the sequence of mutating libc calls on the tree and the target (rename, link, symlink, unlink, open for write, write, copy_file_range/sendfile, clone ioctl, mkdir, utimes, chmod, truncate) is recorded under the LD_PRELOAD interposer with RAYON_NUM_THREADS=1, then EVERY position k is re-run on a rebuilt identical tree with: kill just before k, kill just after k, call k failing with 2 (quick) / all (thorough) applicable errnos, and the pair (k fails, k+1 fails). Oracle per original file: its bytes are readable at its original path, or (remove) another untouched replica exists, or (move) the complete copy is at DIR/<path>, or (kill / double fault only) exactly one temporary sibling holds them; every content keeps an untouched file; without a kill no temporary sibling remains after a single fault, a warning is logged and 'Processed N' equals the number of changed files. evaluations = faulted runs; non-trivial = runs whose faulted call is a later call of a multi-call replacement.",
+        "proptest-generated scenario trees (hostile names, 3-8 files) x remove / link / link --soft / dedupe (with and without FICLONE emulation by the interposer) / move (same file system, EXDEV copy fallback, separate mount). For each scenario the sequence of mutating libc calls on the tree and the target (rename, link, symlink, unlink, open for write, write, copy_file_range/sendfile, clone ioctl, mkdir, utimes, chmod, truncate) is recorded under the LD_PRELOAD interposer with RAYON_NUM_THREADS=1, then EVERY position k is re-run on a rebuilt identical tree with: kill just before k, kill just after k, call k failing with 2 (quick; rotating through the list with the position and the scenario) / all (thorough) applicable errnos (incl. EMLINK for link, EACCES/EPERM for open-for-write, rename and the data copy), and the pair (k fails, k+1 fails). Oracle per original file: its bytes are readable at its original path, or (remove) another untouched replica exists, or (move) the complete copy is at DIR/<path>, or (kill / double fault only) exactly one temporary sibling holds them; every content keeps an untouched file; without a kill no temporary sibling remains after a single fault, a warning is logged and 'Processed N' equals the number of changed files. evaluations = faulted runs; non-trivial = runs whose faulted call is a later call of a multi-call replacement.",
         &["faults are injected at libc level; kills happen at call boundaries (not inside a call)", "FICLONE emulation models a reflink-capable file system and is not fclones code", "one fifth of the scenarios run with 4 rayon threads, where 'k-th call' is schedule dependent but the state-based oracle still applies"],
     )
 }
